@@ -191,10 +191,11 @@ func Version(version string) OptionFn {
 
 // ExtendTypes provides the ability to extend the underlying connection types.
 // Types registered inside the given [github.com/jackc/pgx/v5/pgtype.Map] are
-// registered to all incoming connections.
+// registered to all incoming connections. The given function is called for
+// the type map of every incoming connection.
 func ExtendTypes(fn func(*pgtype.Map)) OptionFn {
 	return func(srv *Server) error {
-		fn(srv.types)
+		srv.types = append(srv.types, fn)
 		return nil
 	}
 }
